@@ -59,7 +59,15 @@ def rename_text(text, mapping):
 
 def rename_plain(text, mapping):
     """token-wise renaming of identifiers in arbitrary text (messages, dumps)"""
-    return re.sub(r'(?<![A-Za-z_0-9$#])(?<![0-9a-fA-F]\.)[A-Za-z_][A-Za-z_0-9$#]*', lambda m: mapping.get(m.group(0), m.group(0)), text)
+    def one(mo):
+        w = mo.group(0)
+        if w in mapping:
+            return mapping[w]
+        k = w.rfind('#')      # the dump numbers symbols of the same name 'T1#2': the suffix is not part of the name
+        if k > 0 and w[k + 1:].isdigit() and w[:k] in mapping:
+            return mapping[w[:k]] + w[k:]
+        return w
+    return re.sub(r'(?<![A-Za-z_0-9$#])(?<![0-9a-fA-F]\.)[A-Za-z_][A-Za-z_0-9$#]*', one, text)
 
 
 class XmlModel:
@@ -113,6 +121,8 @@ def rewrite_tokens(xml, which, rnd, soft_candidates=None):
             rnd.shuffle(soft)
             for n, s_ in zip(cands, soft):
                 mapping[n] = s_
+    # the name of an LSC instance line is taken as it stands (readText(instanceLine = true) does not trim it): no white space is added there
+    instance_names = {n for inst in xm.root.iter('instance') for n in inst.findall('name')}
     for el, kind in xm.text_nodes():
         t = el.text
         if which in ('R3', 'R3soft'):
@@ -124,7 +134,7 @@ def rewrite_tokens(xml, which, rnd, soft_candidates=None):
                 nt = rename_text(t, mapping)
                 sites += sum(1 for tok in T.tokens(t) if tok[0] == 'id' and tok[1] in mapping)
                 el.text = nt
-        elif kind == 'name' and which == 'R2':
+        elif kind == 'name' and which == 'R2' and el not in instance_names:
             # a <name> is an identifier with optional white space around it (symbol() in the XML reader skips isspace())
             pat = rnd.choice([None, None, ' %s', '%s ', '\n%s', '%s\n', '\n\t %s \n', '%s\r\n', '\r\n  %s', '\t%s\t'])
             if pat is not None:
@@ -195,10 +205,14 @@ def compare(a, b, mapping, exact_dump=True):
     if a.get('methods') != b.get('methods'):
         return ('methods', 'original %r, rewritten %r' % (a['methods'], b['methods']))
     if exact_dump:
-        ta = rename_plain(json.dumps(a['doc'], sort_keys=True), mapping)
-        tb = json.dumps(b['doc'], sort_keys=True)
-        if ta != tb:
-            da, db = json.loads(ta), json.loads(tb)
+        def rename_values(x):      # the keys of the dump are its own vocabulary ('invariant', 'update', ...): a model may use the same words as names
+            if isinstance(x, dict):
+                return {k: rename_values(v) for k, v in x.items()}
+            if isinstance(x, list):
+                return [rename_values(v) for v in x]
+            return rename_plain(x, mapping) if isinstance(x, str) else x
+        da, db = rename_values(a['doc']), b['doc']
+        if json.dumps(da, sort_keys=True) != json.dumps(db, sort_keys=True):
             d = M.diff(da, db)
             if d:
                 return ('doc:' + re.sub(r'\[\d+\]', '', d[0]), '%s: original (renamed) %r, rewritten %r' % (d[0], str(d[1])[:300], str(d[2])[:300]))
